@@ -267,7 +267,49 @@ def parse(repo):
     if (flat.count("boolline_added=false;") != 1 or flat.count("line_added=") != 2
             or "if(pc==Chunk::GetHead()||next->IsNullChunk()){line_added=true;pc->SetNlCount(pc->GetNlCount()+1);}" not in flat):
         raise TranslateError("do_blank_lines(): `line_added` is not set exactly in the +1 branch")
-    return {"writes": out, "calls": sorted(calls), "set_cmp": set_cmp, "max_cmp": max_cmp}
+    return {"writes": out, "calls": sorted(calls), "set_cmp": set_cmp, "max_cmp": max_cmp, "caninc": parse_caninc(repo)}
+
+
+def parse_caninc(repo):
+    """src/newlines/can_increase_nl.cpp: the `return(...)` statements of can_increase_nl() in source order, each with the
+    chain of `if` conditions around it"""
+    raw = open(os.path.join(repo, "src", "newlines", "can_increase_nl.cpp"), encoding="utf-8").read()
+    src = strip_comments_strings(raw)
+    m = re.search(r'^bool\s+can_increase_nl\s*\([^)]*\)\s*\{', src, re.M)
+    if not m:
+        raise TranslateError("can_increase_nl.cpp: function can_increase_nl not found")
+    i = m.end() - 1
+    depth = 0
+    for j in range(i, len(src)):
+        if src[j] == "{":
+            depth += 1
+        elif src[j] == "}":
+            depth -= 1
+            if depth == 0:
+                break
+    tree = P(src[i:j + 1]).stmt()
+    out = []
+
+    def walk(t, guards):
+        if t[0] == "block":
+            for x in t[1]:
+                walk(x, guards)
+        elif t[0] == "if":
+            walk(t[2], guards + [t[1]])
+            if t[3] is not None:
+                walk(t[3], guards + ["!(" + t[1] + ")"])
+        elif t[0] in ("while", "for", "switch"):
+            walk(t[2], guards + ["loop(" + t[1] + ")"])
+        else:
+            mm = re.match(r'^return\s*\((.*)\)$', t[1])
+            if mm:
+                out.append((mm.group(1), guards))
+            elif re.search(r'\b(SetNlCount|SetType|SetFlagBits|Delete|CopyAndAdd\w*)\s*\(', t[1]):
+                raise TranslateError("can_increase_nl(): the predicate has a side effect: %s" % t[1])
+    walk(tree, [])
+    if not out:
+        raise TranslateError("can_increase_nl(): no return statement found")
+    return out
 
 
 def lstr(s):
@@ -298,6 +340,10 @@ def emit(tab):
             lstr(w["target"]), lstr(w["kind"]), ", ".join(lstr(o) for o in w["opts"]),
             ", ".join(lstr(g) for g in w["guards"])))
     out.append(",\n".join(rows))
+    out.append("]\n")
+    out.append("/-- the `return(v)` statements of can_increase_nl() in source order with their enclosing conditions -/")
+    out.append("def canIncReturns : List (String × List String) := [")
+    out.append(",\n".join("  (%s, [%s])" % (lstr(v), ", ".join(lstr(g) for g in gs)) for v, gs in tab["caninc"]))
     out.append("]\n\nend Unc.Gen\n")
     return "\n".join(out)
 
